@@ -244,6 +244,9 @@ func (e *Engine) findAllIndicesLoop(haystack []byte, n int, results [][2]int) []
 			// SearchAt → match end (matches Rust find_fwd), reverse DFA → start.
 			matchEnd := e.dfa.SearchAt(state.dfaCache, haystack, pos)
 			if matchEnd < 0 {
+				if verifhook.On {
+					verifhook.Emit("iterstop", 1, vpos)
+				}
 				break
 			}
 			if matchEnd == pos {
@@ -251,6 +254,9 @@ func (e *Engine) findAllIndicesLoop(haystack []byte, n int, results [][2]int) []
 			} else {
 				matchStart := e.reverseDFA.SearchReverse(state.revDFACache, haystack, pos, matchEnd)
 				if matchStart < 0 {
+					if verifhook.On {
+						verifhook.Emit("iterstop", 1, vpos)
+					}
 					break
 				}
 				start, end, found = matchStart, matchEnd, true
@@ -348,6 +354,9 @@ func (e *Engine) Count(haystack []byte, n int) int {
 		if useDFADirect {
 			matchEnd := e.dfa.SearchAt(state.dfaCache, haystack, pos)
 			if matchEnd < 0 {
+				if verifhook.On {
+					verifhook.Emit("iterstop", 2, vpos)
+				}
 				break
 			}
 			if matchEnd == pos {
@@ -355,6 +364,9 @@ func (e *Engine) Count(haystack []byte, n int) int {
 			} else {
 				matchStart := e.reverseDFA.SearchReverse(state.revDFACache, haystack, pos, matchEnd)
 				if matchStart < 0 {
+					if verifhook.On {
+						verifhook.Emit("iterstop", 2, vpos)
+					}
 					break
 				}
 				start, end, found = matchStart, matchEnd, true
